@@ -258,4 +258,115 @@ theorem owner_invariant (c : Core.Cfg) (hwf : WFc c) (inputs : List (Array Cross
     | cons ms rest ih => intro s own h; exact ih _ _ (oinv_step c hwf s ms own h)
   exact key _ _ (oinv_init c hwf)
 
+/-- a master owns at most one non-empty bank queue -/
+def OneBank (c : Core.Cfg) (s : Core.State) (own : Own) : Prop :=
+  ∀ j1 j2, j1 < c.ctl.nbm → j2 < c.ctl.nbm → own j1 ≠ [] → own j2 ≠ [] → s.xb.grants[j1]! = s.xb.grants[j2]! → j1 = j2
+
+/-- acceptance of a request at bank `j` means: the granted master selected this bank, and it is not locked by another bank -/
+theorem taken_selected (c : Core.Cfg) (hwf : WFc c) (s : Core.State) (ms : Array Crossbar.MasterIn) (j : Nat) (hj : j < c.ctl.nbm)
+    (h : takenJ c s ms j = true) :
+    AddrMap.bankOf c.xb.geom (ms[s.xb.grants[j]!]!).cmdAddr = j ∧
+    ∀ ob, ob < c.ctl.nbm → ob ≠ j → ¬ (((Core.bankFb c s)[ob]!).lock = true ∧ s.xb.grants[ob]! = s.xb.grants[j]!) := by
+  simp only [takenJ, BmQueue.taken, Bool.and_eq_true] at h
+  have hv := h.1
+  have hvv : (bmIn c.ctl s.ctl (insOf c s ms) j).valid = ((insOf c s ms)[j]!).valid := rfl
+  rw [hvv, insOf_valid c hwf s ms j hj] at hv
+  -- bankReqs[j].valid = requested[j][grant j] = selected j (grant j) ∧ cmdValid
+  have hsz : j < c.xb.nbanks := by rw [hwf.banks]; exact hj
+  simp only [Crossbar.comb] at hv
+  rw [getElem!_map_range _ _ _ hsz] at hv
+  simp only [] at hv
+  rw [getElem!_map_range _ _ _ hsz] at hv
+  obtain ⟨hlt, hsel⟩ := map_get_true _ _ _ hv
+  have hlt' : s.xb.grants[j]! < c.xb.nmasters := by simpa using hlt
+  have hidx : (Array.range c.xb.nmasters)[s.xb.grants[j]!]! = s.xb.grants[j]! := by
+    rw [getElem!_pos (Array.range c.xb.nmasters) _ (by simpa using hlt')]; simp
+  rw [hidx] at hsel
+  simp only [Bool.and_eq_true, Bool.not_eq_true', List.any_eq_false, List.mem_range, beq_iff_eq] at hsel
+  constructor
+  · have hb := hsel.1.1
+    by_cases hm : s.xb.grants[j]! < ms.size
+    · rw [getElem!_map' _ _ _ hm] at hb; exact hb
+    · have hm2 : ¬ s.xb.grants[j]! < (ms.map fun m => AddrMap.bankOf c.xb.geom m.cmdAddr).size := by simpa using hm
+      rw [getElem!_neg (ms.map fun m => AddrMap.bankOf c.xb.geom m.cmdAddr) _ hm2] at hb
+      rw [getElem!_neg ms _ hm]
+      have hd : (default : Crossbar.MasterIn).cmdAddr = 0 := rfl
+      rw [hd]
+      have hz : AddrMap.bankOf c.xb.geom 0 = 0 := by simp [AddrMap.bankOf]
+      rw [hz]; exact hb
+  · intro ob hob hne ⟨hl, hg⟩
+    have := hsel.1.2 ob (by rw [hwf.banks]; exact hob)
+    simp [hne, hl, hg] at this
+
+/-- the arbiter of a bank whose queue is or becomes non-empty does not move -/
+theorem grant_kept (c : Core.Cfg) (hwf : WFc c) (s : Core.State) (ms : Array Crossbar.MasterIn) (own : Own) (h : OInv c s own)
+    (j : Nat) (hj : j < c.ctl.nbm) (hne : ownNext c s ms own j ≠ []) :
+    (Core.step c s ms).1.xb.grants[j]! = s.xb.grants[j]! := by
+  rw [core_xb]
+  apply C01.grant_stable_while_busy _ _ _ _ _ _ j (by rw [hwf.banks]; exact hj)
+  by_cases htk : takenJ c s ms j = true
+  · left
+    simp only [takenJ, BmQueue.taken, Bool.and_eq_true] at htk
+    rw [← insOf_valid c hwf s ms j hj]
+    exact htk.1
+  · right
+    rw [bankFb_lock c hwf s j hj]
+    have hown : own j ≠ [] := by
+      intro he
+      simp only [ownNext, he, List.tail_nil, ite_self, List.nil_append] at hne
+      simp [htk] at hne
+    have : (BmQueue.queue c.ctl.bm s.ctl.bms[j]!).length ≠ 0 := by
+      rw [← h.len j hj]; simpa using hown
+    cases hq2 : BmQueue.queue c.ctl.bm s.ctl.bms[j]! with
+    | nil => simp [hq2] at this
+    | cons a l => rfl
+
+theorem onebank_step (c : Core.Cfg) (hwf : WFc c) (s : Core.State) (ms : Array Crossbar.MasterIn) (own : Own) (h : OInv c s own)
+    (h1 : OneBank c s own) : OneBank c (Core.step c s ms).1 (ownNext c s ms own) := by
+  intro j1 j2 hj1 hj2 hn1 hn2 hg
+  rw [grant_kept c hwf s ms own h j1 hj1 hn1, grant_kept c hwf s ms own h j2 hj2 hn2] at hg
+  -- a bank whose ownership list was empty and is not any more has accepted a request in this cycle
+  have hacc : ∀ j, own j = [] → ownNext c s ms own j ≠ [] → takenJ c s ms j = true := by
+    intro j he hne
+    cases ht : takenJ c s ms j
+    · simp [ownNext, he, ht] at hne
+    · rfl
+  have hlock : ∀ j, j < c.ctl.nbm → own j ≠ [] → ((Core.bankFb c s)[j]!).lock = true := by
+    intro j hj hne
+    rw [bankFb_lock c hwf s j hj]
+    have : (BmQueue.queue c.ctl.bm s.ctl.bms[j]!).length ≠ 0 := by rw [← h.len j hj]; simpa using hne
+    cases hq2 : BmQueue.queue c.ctl.bm s.ctl.bms[j]! with
+    | nil => simp [hq2] at this
+    | cons a l => rfl
+  refine Decidable.byContradiction fun hne => ?_
+  by_cases he1 : own j1 = []
+  · have ht1 := hacc j1 he1 hn1
+    obtain ⟨hb1, hnl1⟩ := taken_selected c hwf s ms j1 hj1 ht1
+    by_cases he2 : own j2 = []
+    · have ht2 := hacc j2 he2 hn2
+      obtain ⟨hb2, _⟩ := taken_selected c hwf s ms j2 hj2 ht2
+      rw [← hg] at hb2
+      exact hne (hb1.symm.trans hb2)
+    · exact hnl1 j2 hj2 (fun e => hne e.symm) ⟨hlock j2 hj2 he2, hg.symm⟩
+  · by_cases he2 : own j2 = []
+    · have ht2 := hacc j2 he2 hn2
+      obtain ⟨_, hnl2⟩ := taken_selected c hwf s ms j2 hj2 ht2
+      exact hnl2 j1 hj1 hne ⟨hlock j1 hj1 he1, hg⟩
+    · exact hne (h1 j1 j2 hj1 hj2 he1 he2 hg)
+
+theorem onebank_init (c : Core.Cfg) : OneBank c (Core.init c) (fun _ => []) := by
+  intro j1 j2 _ _ h; exact absurd rfl h
+
+/-- **A master has requests queued in at most one bank at a time** (every reachable state of the whole core): so the data
+strobes a port receives come back in the order of its commands - per bank they are FIFO (`bank_queue_fifo`), and a port
+never has two banks working for it. -/
+theorem one_bank_per_master (c : Core.Cfg) (hwf : WFc c) (inputs : List (Array Crossbar.MasterIn)) :
+    OneBank c (runOwn c (Core.init c) (fun _ => []) inputs).1 (runOwn c (Core.init c) (fun _ => []) inputs).2 := by
+  have key : ∀ (s : Core.State) (own : Own), OInv c s own → OneBank c s own →
+      OInv c (runOwn c s own inputs).1 (runOwn c s own inputs).2 ∧ OneBank c (runOwn c s own inputs).1 (runOwn c s own inputs).2 := by
+    induction inputs with
+    | nil => intro s own h h1; exact ⟨h, h1⟩
+    | cons ms rest ih => intro s own h h1; exact ih _ _ (oinv_step c hwf s ms own h) (onebank_step c hwf s ms own h h1)
+  exact (key _ _ (oinv_init c hwf) (onebank_init c)).2
+
 end C01
